@@ -12,13 +12,15 @@ from pyabv.gen.mutate import random_mutation, single_mutations
 from pyabv.gen.programs import Profile, ProgGen
 from pyabv.gen.trivia import token_slices
 from pyabv.impl import impl
-from pyabv.props.common import ref_parse
+from pyabv.props.common import POISON_TEXTS, poison, ref_parse
 
 RULE = (
     "cases = mutated texts (exhaustive single token mutations of 12 seed programs + documented examples; random "
     "1..3-fold mutations of generated programs: delete, duplicate, swap, insert token, illegal character free or "
     "glued, broken operator / weight, prefix / suffix junk incl. unterminated comment or string, truncation, "
-    "concatenation; empty / whitespace-only / comment-only texts). Judged only when the independent recogniser "
+    "concatenation; empty / whitespace-only / comment-only texts; two-step cases where a rejected text (unterminated comment "
+    "or string, illegal character, truncation) is compiled first and a text that only a state-keeping lexer would accept "
+    "follows). Judged only when the independent recogniser "
     "rejects the text. distinct_nontrivial = distinct rejected texts."
 )
 ASSUMPTIONS = [
@@ -141,6 +143,18 @@ def run(ctx):
                 continue
             judge_text(ctx, im, text, kind, detail)
     ctx.sample(dict(layer="single", mutation=kind, text=text[:300]))
+    # two-step cases: a rejected text first, then a text that is only "valid" for a lexer / parser that kept state from
+    # the failure (comment mode, an open string, parser stack)
+    valid = 'def b { splitters: u return "x" weighted 1, "y" weighted 1 }'
+    followups = ["junk */ " + valid, "@ ; = */ " + valid, "*/ " + valid, 'x" ' + valid, "y' " + valid, "} " + valid,
+                 'weighted 1 } ' + valid, '"a" weighted 1 } ' + valid, "1 } } " + valid, valid + " */", valid + ' "']
+    for pz in POISON_TEXTS:
+        for f in followups:
+            idx += 1
+            if not ctx.mine(idx):
+                continue
+            poison(im, pz)
+            judge_text(ctx, im, f, "after-rejected-text", dict(first=pz))
     # random multi-mutations
     n = ctx.n(6000, 1200000)
     pg = ProgGen(rnd, Profile(max_depth=2, max_arms=3, pred_depth=2))
@@ -167,4 +181,6 @@ def run(ctx):
 
 
 def replay(ctx, kind, w):
+    if isinstance(w.get("detail"), dict) and "first" in w["detail"]:
+        poison(impl(), w["detail"]["first"])
     judge_text(ctx, impl(), w["text"], w.get("mutation", "replay"), w.get("detail"))
